@@ -38,6 +38,7 @@ pub mod c14_nest;
 pub mod c16_code;
 pub mod c18_desc;
 pub mod c18_names;
+pub mod c20_raw;
 
 pub fn all() -> Vec<(&'static str, fn())> {
 	let mut v = Vec::new();
@@ -54,5 +55,6 @@ pub fn all() -> Vec<(&'static str, fn())> {
 	v.extend_from_slice(c16_code::LIST);
 	v.extend_from_slice(c18_desc::LIST);
 	v.extend_from_slice(c18_names::LIST);
+	v.extend_from_slice(c20_raw::LIST);
 	v
 }
